@@ -156,8 +156,8 @@ def conditions(tier):
                                   descr='skeleton %r (? = any character)' % sk))
     # (2b) every truncation of the filled skeletons, followed by one free character (end-of-input handling)
     tr_s = SKELETONS_S if not quick else [x for x in SKELETONS_S if x[0] in (
-        'b_full', 'e_full', 'g_two', 'r_paren', 'v_bar', 'nl_star', 'env_F', 'env_V', 'math_p', 'cmt_arg')]
-    for ctxn, lst in (('S', tr_s), ('D', SKELETONS_D)):
+        'b_full', 'r_paren', 'v_bar', 'nl_star', 'env_V', 'cmt_arg')]
+    for ctxn, lst in (('S', tr_s), ('D', SKELETONS_D if not quick else [x for x in SKELETONS_D if x[0] not in ('d_env', 'd_align')])):
         for nm, sk0 in lst:
             conds.append(Cond('trunc_%s_%s' % (ctxn, nm), 's: str', ['is_trunc(s, %r)' % nm], 'body_trunc(s, %r)' % ctxn,
                               timeout=T, cost=4, smoke=[dict(s=sk0.replace('?', 'x')[:k]) for k in range(1, len(sk0))],
